@@ -4,7 +4,6 @@ import importlib
 import os
 import sys
 
-E1 = {'C02': 'p_c02'}
 
 
 def main():
@@ -25,6 +24,7 @@ def main():
 
 ALL = {
     'C02': 'p_c02',
+    'C04': 'p_c04',
 }
 
 if __name__ == '__main__':
